@@ -9,7 +9,9 @@ _P = 'MindsVerif.Props.C19.'
 THEOREMS = [_P + n for n in (
     'C19_caret_partial', 'C19_caret_source', 'C19_eof_caret', 'C19_suggestions_checked',
     'C19_suggestions_sentence_mindsdb', 'C19_lexer_caret', 'C19_bad_token_prefix',
-    'C19_bad_token_prefix_mindsdb', 'C19_full_false',
+    'C19_bad_token_prefix_mindsdb', 'C19_bad_token_deterministic', 'C19_no_accepted_continuation',
+    'C19_bad_token_deterministic_mindsdb', 'C19_suggestion_is_row_key', 'C19_key_classification',
+    'C19_shift_key_extends', 'C19_key_totals_mindsdb', 'C19_full_false',
     'C19_witness_short_caret', 'C19_witness_newline_in_token', 'C19_witness_truncation',
     'C19_witness_replace_previous', 'C19_witness_replace_index0')]
 ASSUME = [
@@ -22,6 +24,8 @@ ASSUME = [
     'completability half of "first token the grammar cannot accept" is search only (Earley oracle)',
 ]
 
+import collections
+KIND_STATS = collections.Counter()
 COMMENT_RE = re.compile(r'/\*[\s\S]*?\*/|--[^\n]*')
 
 
@@ -58,6 +62,14 @@ def real_error_info(text, with_reparse=False):
         toks = list(lexer.tokenize(sql))
     except Exception as e:
         return dict(sql=sql, lexerr=getattr(e, 'error_index', None))
+    rec = {}
+    orig_error = parser.error
+
+    def error(p, expected_tokens=None):
+        if 'state' not in rec:
+            rec['state'] = parser.state      # SLY state number of the error state (this process)
+        return orig_error(p, expected_tokens=expected_tokens)
+    parser.error = error
     try:
         res = parser.parse(iter(toks))
     except Exception as e:
@@ -68,7 +80,10 @@ def real_error_info(text, with_reparse=False):
     alltoks = [t for t in info['tokens'] if t is not None]
     bad = info['bad_token']
     k = None if bad is None else next(i for i, t in enumerate(alltoks) if t is bad)
-    out = dict(sql=sql, toks=alltoks, bad=k, expected=list(info['expected_tokens']), raising=[])
+    row = parser._lrtable.lr_action.get(rec.get('state'), {})
+    kinds = {name: ('none' if v is None else 'shift' if v > 0 else 'reduce' if v < 0 else 'accept')
+             for name, v in row.items()}
+    out = dict(sql=sql, toks=alltoks, bad=k, expected=list(info['expected_tokens']), raising=[], key_kinds=kinds)
     if with_reparse:
         # which synthesised lists make a semantic action of the re-parse raise (input of the model,
         # which does not model the actions): instrumented subclass, harness side only
@@ -300,13 +315,21 @@ def probe_case(text, earley, kind=None, msg=None):
             out.append(fail('context-lines', 'context lines are not the preceding source lines', text,
                             shown=shown[:-1], want=[srclines[l] for l in prev], **ctx))
     # suggestions
+    unchecked = len(pm['suggestions']) == 1 or k == len(toks)
     for s in pm['suggestions']:
         tys = suggestion_types(s)
+        if unchecked:
+            kk = [info.get('key_kinds', {}).get(ty) for ty in tys]
+            KIND_STATS['unchecked-suggestion/' + ('shift' if 'shift' in kk else 'reduce' if 'reduce' in kk else 'none')] += 1
         if not tys:
             out.append(fail('suggestion-not-a-token', 'suggestion %r is not a concrete keyword or symbol '
                             '(it does not lex to one token)' % s, text, suggestion=s, **ctx))
             continue
         if not any(earley.viable_prefix_len(types[:k] + [ty]) == k + 1 for ty in tys):
+            # Φ19: is the suggested key a shift key or only a reduce look-ahead of the error state?
+            kk = [info.get('key_kinds', {}).get(ty) for ty in tys]
+            kind = 'shift' if 'shift' in kk else 'reduce' if 'reduce' in kk else 'none'
+            ctx = dict(ctx, key_kind=kind)
             out.append(fail('suggestion-useless', 'suggestion %r can neither be inserted before nor substituted for the '
                             'offending token %d: %s + [%s] is not a prefix of any sentence' % (s, k, types[max(0, k - 3):k], tys[0]),
                             text, suggestion=s, n_suggestions=len(pm['suggestions']), **ctx))
@@ -358,7 +381,10 @@ def kf_match(k, f):
     if need == 'parser-earlier-than-grammar':
         return isinstance(f.get('parser_bad_index'), int) and f['parser_bad_index'] < f.get('bad_index', -1)
     if need == 'raw-action-row-key':
-        return f.get('n_suggestions') == 1 or 'unexpected end of query' in f.get('msg', '')
+        # unchecked branch AND the key is only a reduce look-ahead of the error state (Φ19: a shift key of
+        # the error state extends the parser's path, C19_shift_key_extends, so it must help)
+        return (f.get('n_suggestions') == 1 or 'unexpected end of query' in f.get('msg', '')) \
+            and f.get('key_kind') == 'reduce'
     return need is None
 
 
@@ -505,6 +531,7 @@ def run(chk):
                 lines.append('L %d %s' % (info['lexerr'], enc(info['sql'])))
                 metas.append((case, '\n'.join(msg.split('\n')[1:])))
                 dist['corr/lex'] = dist.get('corr/lex', 0) + 1
+    dist.update({'phi19/' + k_: v for k_, v in KIND_STATS.items()})
     chk.oblige('probe:value-is-source', 'probe', src_bad is None,
                '' if src_bad is None else 'real lexer produced a token whose value is not its source slice '
                '(hypothesis of C19_caret_source, repo 5f4cdd1): %r' % src_bad)
